@@ -15,7 +15,9 @@ The long-format reader is regular-expression based; Read.lean models each regula
   (b) `readEntry_iv`, `readEntry_pt`, `readTier_written`; (c) `split_file`; `emitLong_toList`.
 * `parseText_long_emit`, `parseText_short_emit` — through the format sniffing of `parseTextgridStr`, with `_removeBlanks`.
 * `sep_in_row_iff`, `noKwLong_of_no_bracket` — the keyword hypothesis exactly / a simple sufficient condition;
-  `parseLong_keyword_counterexample`, `parseLong_name_newline_counterexample`, `#guard`s — what must be excluded.
+  `parseLong_keyword_counterexample`, `parseLong_name_newline_counterexample`, `parseText_short_item_counterexample`,
+  `#guard`s — what must be excluded.  The hypotheses are classified (property's own quantifier / enforced by the code /
+  known defect with counter-example) in the docstrings of `LongNum`, `parseLong_emit`, `parseText_*_emit`.
 -/
 
 namespace C01
@@ -26,7 +28,13 @@ open Txt Rd
 /-- the characters of a numeral the long-format reader accepts -/
 def numChar (c : Char) : Bool := c.isDigit || c == '.' || c == 'e' || c == 'E' || c == '+' || c == '-'
 
-/-- `w` matches `[\d.]+(?:[eE][-+]?\d+)?` entirely (CPython's `repr` / `"%d"` of a finite non-negative number does) -/
+/-- `w` matches `[\d.]+(?:[eE][-+]?\d+)?` entirely (CPython's `repr` / `"%d"` of a finite non-negative number does).
+No sign is accepted.  C01 quantifies over non-negative times, so for C01 this is the property's own quantifier; what the
+reader does with a signed numeral: on the rows whose pattern has `-?` (a tier's / an interval's `xmin`, a point's `number`)
+the `-` is matched but NOT captured — `-1.5` is read as `1.5`, `-0` as `0` (`C03.numAfter_start_gen`; whole files:
+`C03.parseLong_layout_signed`) — and on the `xmax` rows nothing matches: `ParsingError` (`C03.numAfter_signed_none`); a
+negative time in a whole file: `C03.long_short_negative_counterexample`.  A `+` sign is matched by no pattern
+(`ParsingError`). -/
 inductive LongNum : List Char → Prop
   | plain (m : List Char) (hm : m ≠ []) (hd : ∀ c ∈ m, isDigitDot c = true) : LongNum m
   | exp (m : List Char) (c : Char) (sg ds : List Char) (hm : m ≠ []) (hd : ∀ c ∈ m, isDigitDot c = true)
@@ -2176,7 +2184,17 @@ theorem hdr4 (num : α → String) (lo hi : α) (n : Nat) :
 long-format emitter writes for ANY textgrid (any number of tiers, also none; any number of entries) returns exactly that
 textgrid — under the hypotheses: numerals match the reader's pattern `[\d.]+(?:[eE][-+]?\d+)?`; no name or label
 contains `item [`, `item[` or the entry separator of its own tier class (A10); labels are strip-invariant; names are
-single-line; no `\r\n` in names and labels. -/
+single-line; no `\r\n` in names and labels.
+
+The hypotheses, classified: `hnum` — a property of the numeral renderer, true of CPython's `repr` / `"%d"` for every finite
+NON-NEGATIVE float, which is what C01 quantifies over (a negative time loses its sign or raises: see `LongNum`);
+`hkw` — known reader defect A10, needed (`parseLong_keyword_counterexample`); `hlab` — enforced by the code: the
+`IntervalTier` / `PointTier` constructors strip every label, so no in-memory textgrid violates it (the reader strips labels
+too: an unstripped label would come back stripped, as in `parseShort_emit_strip`; tier NAMES need no such hypothesis here —
+this reader does not strip them, see the `#guard` on `" a "` below); `hname` — C01 quantifies over single-line names;
+needed (`parseLong_name_newline_counterexample`; the short and JSON formats do keep a multi-line name);
+`hcr` — C01 quantifies over texts without carriage returns (`NoCRLF` is weaker: a lone `\r` is allowed and survives at
+this level — `io.open`'s universal newlines turn it into `\n` when the file is read from disk). -/
 theorem parseLong_emit (num : α → String) (hnum : ∀ x, LongNum (num x).toList) (g : Tg α) (lo hi : α)
     (hkw : ∀ t ∈ g.tiers, NoKwLong t) (hlab : ∀ t ∈ g.tiers, StrippedLabels t) (hname : ∀ t ∈ g.tiers, NameLine t)
     (hcr : ∀ t ∈ g.tiers, NoCRLF t) :
@@ -2513,7 +2531,9 @@ def dropEmpty (includeEmpty : Bool) (r : RawTg) : RawTg :=
 
 /-- **through `parseTextgridStr`'s format sniffing**: a written long-format file is recognised as long (it contains
 `item [` and — when no name or label contains `ooTextFile short` — not that phrase), read back, and with
-`includeEmptyIntervals = False` exactly the entries with empty label are removed -/
+`includeEmptyIntervals = False` exactly the entries with empty label are removed.  (`hsn`: known defect A10 — a name or
+label containing `ooTextFile short` sends the long file to the short-format reader, see the `#guard` below; replayed on
+praatio: `ValueError: could not convert string to float: 'xmin = 0'`; the others as for `parseLong_emit`.) -/
 theorem parseText_long_emit (num : α → String) (hnum : ∀ x, LongNum (num x).toList) (g : Tg α) (lo hi : α)
     (hkw : ∀ t ∈ g.tiers, NoKwLong t) (hlab : ∀ t ∈ g.tiers, StrippedLabels t) (hname : ∀ t ∈ g.tiers, NameLine t)
     (hcr : ∀ t ∈ g.tiers, NoCRLF t) (hsn : ∀ t ∈ g.tiers, NoSniff t) (includeEmpty : Bool) :
@@ -2534,7 +2554,9 @@ theorem parseText_long_emit (num : α → String) (hnum : ∀ x, LongNum (num x)
   cases includeEmpty <;> rfl
 
 /-- the short-format file through the sniffing: it is read with the short-format reader as long as it does not contain
-`item [` (then `caseB` holds) — names, labels and numerals without `item [` -/
+`item [` (then `caseB` holds) — names, labels and numerals without `item [`.  (`hnumI`: a property of the renderer, true of
+every CPython numeral; `hit`: known defect A10, needed — `parseText_short_item_counterexample`; the others as for
+`parseShort_emit`.) -/
 theorem parseText_short_emit (num : α → String) (hnum : ∀ x, NumWord (num x)) (hnumI : ∀ x, ¬ itA <:+: (num x).toList)
     (g : Tg α) (lo hi : α) (hne : g.tiers ≠ []) (hkw : ∀ t ∈ g.tiers, NoKw t) (hstr : ∀ t ∈ g.tiers, Stripped' t)
     (hcr : ∀ t ∈ g.tiers, NoCRLF t) (hit : ∀ t ∈ g.tiers, ∀ s ∈ texts t, ¬ itA <:+: s.toList) (includeEmpty : Bool) :
@@ -2571,6 +2593,30 @@ theorem parseText_short_emit (num : α → String) (hnum : ∀ x, NumWord (num x
   simp only [hB, Bool.not_false, Bool.or_true, if_true, parseShort_emit num hnum g lo hi hne hkw hstr hcr, bind, Except.bind,
     dropEmpty]
   cases includeEmpty <;> rfl
+
+def isIndexError (r : Except Err RawTg) : Bool :=
+  match r with
+  | .error .IndexError => true
+  | _ => false
+
+/-- one interval tier `a` with the intervals (0, 1, `item [`), (1, 2, `z`) -/
+def shortItemTg : Tg Nat := ⟨[ivT "a" "item ["], none, none⟩
+
+/-- **the hypothesis `hit` of `parseText_short_emit` is needed (A10, format sniffing)**: a SHORT-format file with the label
+`item [` is taken for a long-format file by `parseTextgridStr` (`caseB` fails) and `_parseNormalTextgrid` raises `IndexError`
+(`headerList[3]`) — replayed on praatio: `openTextgrid` of the saved file raises `IndexError: list index out of range` -/
+theorem parseText_short_item_counterexample :
+    isIndexError (Rd.parseText (Txt.ofString (tgToShort numN shortItemTg 0 9)) true) = true := by
+  have hA : Txt.contains (Txt.ofString (tgToShort numN shortItemTg 0 9)) (lit "ooTextFile short") = false := by
+    rw [ofString_emit, contains_eq _ _ (by decide), List.toList_toArray]
+    decide +kernel
+  have hB : Txt.contains (Txt.ofString (tgToShort numN shortItemTg 0 9)) (lit "item [") = true := by
+    rw [ofString_emit, contains_eq _ _ (by decide), List.toList_toArray]
+    decide +kernel
+  unfold Rd.parseText
+  simp only [hA, hB, Bool.not_true, Bool.or_self, Bool.false_eq_true, if_false]
+  rw [ofString_emit, parseLong_eq, List.toList_toArray]
+  decide +kernel
 
 -- the sniffing hypotheses are needed: a label `ooTextFile short` sends a long file to the short-format reader, a label
 -- `item [` sends a short file to the long-format reader
